@@ -193,6 +193,20 @@ impl Future for GateN {
     }
 }
 
+/// a step as a plain hand-written future (no `async` state machine: far cheaper for the solver than `astep`): logs `enter` at its first poll, is
+/// pending for `n` polls (waking itself each time), then logs `exit` and yields `v`
+pub struct StepF<T> { enter: usize, exit: usize, n: u8, v: Option<T>, started: bool }
+impl<T: Unpin> Future for StepF<T> {
+    type Output = T;
+    fn poll(mut self: Pin<&mut Self>, cx: &mut Context<'_>) -> Poll<T> {
+        if !self.started { self.started = true; ev(self.enter); }
+        if self.n > 0 { self.n -= 1; cx.waker().wake_by_ref(); return Poll::Pending; }
+        ev(self.exit);
+        match self.v.take() { Some(v) => Poll::Ready(v), None => panic!("StepF polled after completion") }
+    }
+}
+pub fn sstep<T: Unpin>(enter: usize, exit: usize, n: u8, v: T) -> StepF<T> { StepF { enter, exit, n, v: Some(v), started: false } }
+
 pub const NGATE: usize = 8;
 pub static mut OPEN: [bool; NGATE] = [false; NGATE];
 pub static mut GATE_POLLS: [u8; NGATE] = [0; NGATE];
